@@ -550,6 +550,25 @@ func (root *Root) validate() error {
 	root.coerced = &coerced
 	defer func() { root.coerced = nil }()
 
+	// A default of an input field that needs itself to be filled in can
+	// never be filled in. It has to be found before anything is coerced,
+	// coercing a value of such a type does not end.
+	for _, t := range root.types.list {
+		if it, _ := t.(*Input); it != nil {
+			for _, f := range it.fields.list {
+				if f.Default == nil {
+					continue
+				}
+				if name := defaultLoop(f.Type, f.Default, map[*InputField]bool{f: true}); 0 < len(name) {
+					errs = append(errs, fmt.Errorf("%w, the default value of %s.%s can not be filled in, it needs the default of %s again at %d:%d",
+						ErrValidation, it.N, f.N, name, f.line, f.col))
+				}
+			}
+		}
+	}
+	if 0 < len(errs) {
+		return Errors(errs)
+	}
 	for _, t := range root.types.list {
 		errs = append(errs, root.validateTypeName("type", t)...)
 		errs = append(errs, root.validateDirUses(t)...)
